@@ -83,7 +83,7 @@ theorem optMapM_none {α β : Type} (f : α → Option β) :
 /-- the per-dimension step of `_get_indices` (the body of the loop over the dimensions) -/
 def giStep (cfg : IndexCfg) : Ix × Axis → Except Err RawIx := fun (ix, ax) => do
   let r ← match ix with
-    | .mask m => pure (RawIx.mask m)
+    | .mask m => if m.length == ax.size then pure (RawIx.mask m) else .error .index
     | _ =>
       if cfg.mode != .position && !ix.isFull then loc ax.labels ax.kind ix cfg.tol
       else ixToRaw ix
@@ -391,13 +391,23 @@ theorem keep_false (cfg : IndexCfg) (hk : cfg.keepdims = false) (x : Except Err 
   | error e => rfl
   | ok r => cases r <;> simp [hk, bind, Except.bind, pure, Except.pure]
 
-/-- in position mode `_get_indices` only converts the index to what NumPy receives -/
+/-- a boolean index goes through `_get_indices` unchanged if it has the size of its axis, and is an `IndexError`
+otherwise (any mode, any `keepdims`) -/
+theorem giStep_mask (cfg : IndexCfg) (m : List Bool) (ax : Axis) :
+    giStep cfg (Ix.mask m, ax) = if m.length = ax.size then .ok (.mask m) else .error .index := by
+  unfold giStep
+  by_cases h : m.length = ax.size
+  · simp only [h, beq_self_eq_true, if_true]; rfl
+  · have hb : (m.length == ax.size) = false := by simpa using h
+    simp only [h, hb, Bool.false_eq_true, if_false]; rfl
+
+/-- in position mode `_get_indices` only converts the index to what NumPy receives (a boolean index: `giStep_mask`) -/
 theorem giStep_position (cfg : IndexCfg) (hm : cfg.mode = .position) (hk : cfg.keepdims = false)
-    (ix : Ix) (ax : Axis) : giStep cfg (ix, ax) = ixToRaw ix := by
+    (ix : Ix) (ax : Axis) (hnm : ∀ m, ix ≠ .mask m) : giStep cfg (ix, ax) = ixToRaw ix := by
   have hmode : (cfg.mode != Mode.position) = false := by rw [hm]; decide
   unfold giStep
   cases ix with
-  | mask m => exact keep_false cfg hk _
+  | mask m => exact absurd rfl (hnm m)
   | scalar v => simp only [hmode, Bool.false_and, Bool.false_eq_true, if_false]; exact keep_false cfg hk _
   | list vs => simp only [hmode, Bool.false_and, Bool.false_eq_true, if_false]; exact keep_false cfg hk _
   | slice a b c => simp only [hmode, Bool.false_and, Bool.false_eq_true, if_false]; exact keep_false cfg hk _
@@ -483,6 +493,7 @@ theorem perDim_position (cfg : IndexCfg) (hm : cfg.mode = .position) (hk : cfg.k
   | ellipsis =>
     exact absurd rfl hne
   | scalar v =>
+    replace hgi := hgi (fun _ h => by cases h)
     simp only [Spec.posPositions]
     rw [ixToRaw_scalar] at hgi
     cases hv : Spec.intOf v with
@@ -501,6 +512,7 @@ theorem perDim_position (cfg : IndexCfg) (hm : cfg.mode = .position) (hk : cfg.k
         · rw [hsize, resolve_int_eq, hn]; rfl
         · intro ps h; cases h
   | list vs =>
+    replace hgi := hgi (fun _ h => by cases h)
     simp only [Spec.posPositions]
     rw [ixToRaw_list] at hgi
     cases hv : vs.mapM Spec.intOf with
@@ -520,16 +532,17 @@ theorem perDim_position (cfg : IndexCfg) (hm : cfg.mode = .position) (hk : cfg.k
         · intro ps _ h; cases h
   | mask m =>
     simp only [Spec.posPositions]
-    have hgi' : giStep cfg (Ix.mask m, ax) = .ok (.mask m) := hgi
+    have hgi' := giStep_mask cfg m ax
+    rw [hsize] at hgi'
     by_cases hlen : m.length = ax.labels.length
-    · simp only [hlen, if_true]
+    · simp only [hlen, if_true] at hgi' ⊢
       refine ⟨.mask m, hgi', ?_, ?_⟩
       · simp [resolveRaw, hsize, hlen]
       · intro ps _ h; cases h
-    · simp only [hlen, if_false]
-      refine Or.inr ⟨.mask m, .index, hgi', ?_, Or.inl rfl⟩
-      simp [resolveRaw, hsize, hlen]
+    · simp only [hlen, if_false] at hgi' ⊢
+      exact Or.inl ⟨.index, hgi', Or.inl rfl⟩
   | slice s e st =>
+    replace hgi := hgi (fun _ h => by cases h)
     simp only [Spec.posPositions]
     rw [ixToRaw_slice] at hgi
     cases hs : Spec.optInt s with
@@ -766,7 +779,7 @@ def keepStep (kd : Bool) (r : RawIx) : Except Err RawIx :=
 /-- the first step of the loop body of `_get_indices` -/
 def firstStep (cfg : IndexCfg) (ix : Ix) (ax : Axis) : Except Err RawIx :=
   match ix with
-  | .mask m => pure (RawIx.mask m)
+  | .mask m => if m.length == ax.size then pure (RawIx.mask m) else .error .index
   | _ => if cfg.mode != .position && !ix.isFull then loc ax.labels ax.kind ix cfg.tol
          else ixToRaw ix
 
@@ -842,9 +855,13 @@ theorem loc_singleton (L : List Label) (kind : Kind) (v : Label) (hn : L.Nodup) 
 theorem giStep_keep (cfg : IndexCfg) (hk : cfg.keepdims = true) (ix : Ix) (ax : Axis)
     (hix : ix ≠ .scalar .none) (hn : cfg.mode ≠ .position → ax.labels.Nodup) :
     giStep cfg (ix, ax) = giStep { cfg with keepdims := false } (ix.keep, ax) := by
+  by_cases hmk : ∃ m, ix = .mask m
+  · obtain ⟨m, rfl⟩ := hmk
+    have hkeep : (Ix.mask m).keep = Ix.mask m := rfl
+    rw [hkeep, giStep_mask, giStep_mask]
   rw [giStep_def, giStep_def, hk]
   cases ix with
-  | mask m => rfl
+  | mask m => exact absurd ⟨m, rfl⟩ hmk
   | ellipsis =>
     simp only [Ix.keep, firstStep, Ix.isFull]
     have hmode : ({ cfg with keepdims := false } : IndexCfg).mode = cfg.mode := rfl
@@ -1018,7 +1035,7 @@ theorem locateOne_tol_cases (L : List Label) (v : Label) (t : Tol) :
       simp only
       by_cases hne : qs = []
       · subst hne
-        exact Or.inr ⟨.value, rfl, Or.inr (Or.inr rfl)⟩
+        exact Or.inr ⟨.index, rfl, Or.inl rfl⟩
       · have hem : qs.isEmpty = false := by
           cases qs with
           | nil => exact absurd rfl hne
@@ -1103,16 +1120,16 @@ theorem perDim_maskfull (cfg : IndexCfg) (ix : Ix) (ax : Axis) (hp : ax.members 
     DimSpec cfg (fun e => e = .index) ix ax (Spec.positions ax.labels ix) := by
   have hsize := axis_size_plain ax hp
   rcases hs with ⟨m, rfl⟩ | rfl
-  · have hgi : giStep cfg (Ix.mask m, ax) = .ok (.mask m) := by rw [giStep_def]; rfl
+  · have hgi := giStep_mask cfg m ax
+    rw [hsize] at hgi
     simp only [Spec.positions]
     by_cases hlen : m.length = ax.labels.length
-    · simp only [hlen, if_true]
+    · simp only [hlen, if_true] at hgi ⊢
       refine ⟨.mask m, hgi, ?_, ?_⟩
       · simp [resolveRaw, hsize, hlen]
       · intro ps _ h; cases h
-    · simp only [hlen, if_false]
-      refine Or.inr ⟨.mask m, .index, hgi, ?_, rfl⟩
-      simp [resolveRaw, hsize, hlen]
+    · simp only [hlen, if_false] at hgi ⊢
+      exact Or.inl ⟨.index, hgi, rfl⟩
   · have hgi : giStep cfg (fullIx, ax) = .ok (.slice none none none) := by
       rw [giStep_def]
       simp only [firstStep, fullIx, Ix.isFull, Bool.not_true, Bool.and_false, Bool.false_eq_true, if_false]
